@@ -254,6 +254,23 @@ class C14(core.Check):
                 if all(_vol_ok(pts, c) for c in cells):
                     return pts, cells
 
+    def _inner_grid(self, rng, kind):
+        """a jittered structured grid that has interior points (so that smoothing moves something): 2x2 / 3x2 quads, 2x2x2 hexahedra"""
+        from .c15 import _extrude, _structured_quads
+
+        if kind == "quad":
+            pq, cq = _structured_quads(rng.choice([2, 3]), 2)
+            while True:
+                pts = [[p[0] + _dy(rng, -0.2, 0.2), p[1] + _dy(rng, -0.2, 0.2), F(0)] for p in pq]
+                if all(self._convex_quad(pts, c) for c in cq):
+                    return pts, [list(c) for c in cq]
+        pq, cq = _structured_quads(2, 2)
+        p3, c3 = _extrude(pq, cq, 2)
+        while True:
+            pts = [[x + _dy(rng, -0.15, 0.15) for x in p] for p in p3]
+            if all(_vol_ok(pts, c) for c in c3):
+                return pts, [list(c) for c in c3]
+
     def _small_grid(self, rng, kind):
         from .c15 import _extrude, _structured_quads
 
@@ -289,6 +306,18 @@ class C14(core.Check):
         ts.append({"quat": self._quat(rng), "trans": tr()})
         ts.append({"scale": sc()})
         ts.append({"trans": tr()})
+        # round 6b: placements far from the origin compared with the size of the cell (georeferenced coordinates):
+        # whole-number offsets of 2^20..2^23, alone, with a renumbering, with an exact quarter / half / third turn.
+        # The points are dyadic (1/64 .. 1/8), so the moved coordinates are exactly representable and the unchanged
+        # code computes the very same edge vectors and centres: the value must not change at all (2e-6 allowed).
+        far = lambda: [str(rng.choice([-1, 1]) * 2 ** rng.randint(20, 23) + rng.randint(-1000, 1000)) for _ in range(3)]
+        exact_turns = [[1, 1, 0, 0], [1, 0, 1, 0], [1, 0, 0, 1], [0, 1, 0, 0], [0, 0, 1, 0], [1, -1, 0, 0], [1, 1, 1, 1]]
+        ts.append({"trans": far()})
+        if tier == "thorough":
+            ts.append({"sigma": [rng.choice(rots) for _ in range(ncells)], "trans": far()})
+            ts.append({"quat": rng.choice(exact_turns), "trans": far()})
+        else:
+            ts.append({"sigma": [rng.choice(rots) for _ in range(ncells)], "quat": rng.choice(exact_turns), "trans": far()})
         ts.append({"sigma": [rng.choice(rots) for _ in range(ncells)], "quat": self._quat(rng), "trans": tr(), "scale": sc()})
         if all_rot:
             for s in rots:
@@ -363,6 +392,32 @@ class C14(core.Check):
             cur = [list(p) for p in pts]
             hops: List[list] = [["R"]]
             r3 = rng.random()
+            if r3 < 0.3 and k % 2 == 0:
+                # round 6b: the points of the SAME grid object are changed *in place* after a first read — a single
+                # `grid.points[i] = …`, a whole-array write of jittered points, or the library's own smoother working on
+                # this grid (`SmootherBase(grid).smooth(k)` writes `grid.points[...]` directly) — and read again
+                pts, cells = self._inner_grid(rng, kind)
+                pts = [[k0 * x for x in p] for p in pts]
+                npts = len(pts)
+                cur = [list(p) for p in pts]
+                hops = [["R"]]
+                for _ in range(rng.randint(1, 3)):
+                    r4 = rng.random()
+                    if r4 < 0.4:
+                        hops.append(["Sm", rng.choice([1, 2, 5])])
+                    elif r4 < 0.75:
+                        i = rng.randrange(npts)
+                        d = [k0 * _dy(rng, -0.15, 0.15), k0 * _dy(rng, -0.15, 0.15), k0 * _dy(rng, -0.15, 0.15) if kind == "hex" else F(0)]
+                        hops.append(["E", i, [str(d0) for d0 in d]])  # displacement, added to the position of that moment
+                    else:
+                        hops.append(["J", [[str(k0 * _dy(rng, -0.1, 0.1)), str(k0 * _dy(rng, -0.1, 0.1)),
+                                            str(k0 * _dy(rng, -0.1, 0.1)) if kind == "hex" else "0"] for _ in range(npts)]])
+                    hops.append(["R"])
+                moves = [{"trans": [str(_dy(rng, -20, 20, 8)) for _ in range(3)]},
+                         {"quat": self._quat(rng), "trans": [str(_dy(rng, -20, 20, 8)) for _ in range(3)]}]
+                cases.append({"kind": kind, "tag": "history-inplace", "cls": "history", "points": S(pts), "cells": cells,
+                              "hops": hops, "moves": moves, "container": "float"})
+                continue
             if r3 < 0.3:
                 # round 3: the whole grid is rotated rigidly (quads: out of their plane) on the SAME grid object, once or
                 # twice, either point after point through grid.update or by writing grid.points at once (as the smoother does)
@@ -533,6 +588,23 @@ class C14(core.Check):
             elif op[0] == "W":
                 grid.points[:] = np.array([[float(F(x)) for x in q] for q in op[1]], dtype=float)
                 steps.append({"write": True})
+            elif op[0] in ("E", "J", "Sm"):
+                # in-place changes that do not go through GridBase.update
+                if op[0] == "E":
+                    grid.points[op[1]] = grid.points[op[1]] + np.array([float(F(x)) for x in op[2]])
+                elif op[0] == "J":
+                    grid.points[:] = grid.points + np.array([[float(F(x)) for x in q] for q in op[1]], dtype=float)
+                else:
+                    from classy_blocks.optimize.smoother import SmootherBase
+
+                    class _Plain(SmootherBase):
+                        def backport(self):
+                            pass
+
+                    with warnings.catch_warnings():
+                        warnings.simplefilter("ignore")
+                        _Plain(grid).smooth(op[1])
+                steps.append({"write": True, "after": [[core.rat(float(x)) for x in p] for p in grid.points]})
             else:
                 try:
                     ret: Any = float(grid.update(op[1], np.array([float(F(x)) for x in op[2]])))
@@ -556,8 +628,10 @@ class C14(core.Check):
             ops = "|".join(
                 "R" if op[0] == "R"
                 else ("W" + ";".join(",".join(core.rat(float(F(x))) for x in q) for q in op[1]) if op[0] == "W"
-                      else f"U{op[1]}:" + ",".join(core.rat(float(F(x))) for x in op[2]))
-                for op in case["hops"])
+                      # an in-place edit / jitter / smoothing: the model is told the points the array holds afterwards
+                      else ("W" + ";".join(",".join(q) for q in st["after"]) if op[0] in ("E", "J", "Sm")
+                            else f"U{op[1]}:" + ",".join(core.rat(float(F(x))) for x in op[2])))
+                for op, st in zip(case["hops"], impl["steps"]))
             return [f"c14.hist {case['kind']} {cells} {pts} {ops}"]
         reqs = []
         for e in impl["evals"]:
